@@ -62,9 +62,22 @@ def _unique(draw, used, alphabet, unnamed, tag):
 
 
 _json_leaf = st.one_of(st.integers(-3, 99), st.booleans(), st.sampled_from(["", "v", "V w", "0"]))
+# {"__tuple__": [...]} is built as a tuple (an immutable container that may hold mutable ones)
 _json_val = st.recursive(_json_leaf, lambda ch: st.one_of(
-    st.lists(ch, max_size=3), st.dictionaries(st.sampled_from(["k", "K", "z"]), ch, max_size=2)),
+    st.lists(ch, max_size=3), st.dictionaries(st.sampled_from(["k", "K", "z"]), ch, max_size=2),
+    st.fixed_dictionaries({"__tuple__": st.lists(ch, min_size=1, max_size=3)})),
     max_leaves=4)
+
+
+def thaw_value(v):
+    """recipe value -> value stored in the netlist"""
+    if isinstance(v, dict):
+        if set(v) == {"__tuple__"}:
+            return tuple(thaw_value(x) for x in v["__tuple__"])
+        return {k: thaw_value(x) for k, x in v.items()}
+    if isinstance(v, list):
+        return [thaw_value(x) for x in v]
+    return v
 
 
 @st.composite
@@ -268,12 +281,12 @@ def build(rec, policy=None):
     if rec.get("name") is not None:
         nl.name = rec["name"]
     for k, v in (rec.get("data") or {}).items():
-        nl[k] = v
+        nl[k] = thaw_value(v)
     B.netlist = nl
     for lib in rec.get("libs", []):
         L = nl.create_library()
         for k, v in (lib.get("data") or {}).items():
-            L[k] = v
+            L[k] = thaw_value(v)
         if lib.get("name") is not None:
             try:
                 L.name = lib["name"]
@@ -285,7 +298,7 @@ def build(rec, policy=None):
         D = B.libs[li].create_definition()
         _try_name(D, d.get("name"))
         for k, v in d.get("data", {}).items():
-            D[k] = v
+            D[k] = thaw_value(v)
         B.defs.append(D)
         B.def_recipes.append(d)
         for p in d.get("ports", []):
@@ -306,7 +319,7 @@ def build(rec, policy=None):
             I = D.create_child()
             _try_name(I, ch.get("name"))
             for k, v in ch.get("data", {}).items():
-                I[k] = v
+                I[k] = thaw_value(v)
             if ch.get("ref") is not None and me > 0:
                 I.reference = B.defs[ch["ref"] % me]
         for conn in d.get("conns", []):
@@ -423,7 +436,7 @@ def _try_name(el, name):
 
 def _bundle_attrs(B, r):
     for k, v in (r.get("data") or {}).items():
-        B[k] = v
+        B[k] = thaw_value(v)
     n = len(B.pins) if hasattr(B, "pins") else len(B.wires)
     if n <= 1:
         B.is_scalar = not r.get("arr", False)
